@@ -658,6 +658,9 @@ theorem addAny_inv : ∀ f, AddSpec R a gen (addAny f)
     | user =>
       simp only [hk] at he
       exact addAny_sec_inv f ih st st' r (by rw [hk]; decide) (by rw [hk]; decide) h (by rw [hk]; exact he)
+    | certmap =>
+      simp only [hk] at he
+      exact addAny_sec_inv f ih st st' r (by rw [hk]; decide) (by rw [hk]; decide) h (by rw [hk]; exact he)
 
 /-! ## comparison -/
 
@@ -798,6 +801,10 @@ theorem diffAny_inv (hc : Closed R a) : ∀ f, DiffSpec R a gen (diffAny f)
           exact diffAny_sec_inv hc f ih st st' ra rb n oa ob hoa hob (by rw [hk]; decide) (by rw [hk]; decide) hra hkind h
             (by rw [hk]; exact he)
         | user =>
+          simp only [hk] at he
+          exact diffAny_sec_inv hc f ih st st' ra rb n oa ob hoa hob (by rw [hk]; decide) (by rw [hk]; decide) hra hkind h
+            (by rw [hk]; exact he)
+        | certmap =>
           simp only [hk] at he
           exact diffAny_sec_inv hc f ih st st' ra rb n oa ob hoa hob (by rw [hk]; decide) (by rw [hk]; decide) hra hkind h
             (by rw [hk]; exact he)
